@@ -29,7 +29,12 @@ macro_rules! dispatch {
             "C05" => $f(&props::cli::C05, $($arg),*),
             "C13" => $f(&props::cli::C13, $($arg),*),
             "C20" => $f(&props::place::C20, $($arg),*),
+            "C08" => $f(&props::cli2::C08, $($arg),*),
+            "C09" => $f(&props::cli2::C09, $($arg),*),
+            "C10" => $f(&props::cli2::C10, $($arg),*),
             "C11" => $f(&props::c11::C11, $($arg),*),
+            "C14" => $f(&props::cli2::C14, $($arg),*),
+            "C15" => $f(&props::cli2::C15, $($arg),*),
             other => {
                 eprintln!("unknown property {}", other);
                 std::process::exit(2);
